@@ -51,6 +51,7 @@ pub fn c01(ctx: &Ctx) -> Collector {
     run_space(&col, 11, &spaces::s_opt(ctx.tier.thorough()), &p, true, &no_extra);
     run_space(&col, 12, &spaces::s_group(ctx.tier.thorough()), &p, true, &no_extra);
     run_space(&col, 13, &spaces::s_small(if ctx.tier.thorough() { &[None, Some(0)] } else { &[None] }, ctx.tier.thorough()), &p, true, &no_extra);
+    run_space(&col, 14, &spaces::s_cap_families(ctx.tier.thorough()), &p, true, &no_extra);
     seeded_supplement(ctx, &col, 20, &p, true);
     col
 }
@@ -66,6 +67,7 @@ pub fn c02(ctx: &Ctx) -> Collector {
         i += 1;
     }
     run_space(&col, 10, &spaces::s_cell(ctx.tier.thorough()), &p, true, &no_extra);
+    run_space(&col, 11, &spaces::s_cap_families(ctx.tier.thorough()), &p, true, &no_extra);
     crate::props::c02x::corruption(ctx, &col);
     col
 }
@@ -192,6 +194,7 @@ pub fn c06(ctx: &Ctx) -> Collector {
     run_space(&col, 11, &spaces::s_group(ctx.tier.thorough()), &p, true, &no_extra);
     run_space(&col, 12, &spaces::s_small(if ctx.tier.thorough() { &[None, Some(0)] } else { &[None] }, ctx.tier.thorough()), &p, true, &no_extra);
     run_space(&col, 13, &spaces::s_opt(ctx.tier.thorough()), &p, true, &no_extra);
+    run_space(&col, 14, &spaces::s_cap_families(ctx.tier.thorough()), &p, true, &no_extra);
     seeded_supplement(ctx, &col, 20, &p, true);
     col
 }
@@ -324,6 +327,7 @@ pub fn c10(ctx: &Ctx) -> Collector {
     run_space(&col, 14, &s_forced_versions(false), &p, false, &no_extra);
     run_space(&col, 15, &s_far_beyond(), &p, false, &no_extra);
     run_space(&col, 16, &s_byte_at_position(if ctx.tier.thorough() { 5 } else { 4 }), &p, false, &no_extra);
+    run_space(&col, 17, &spaces::s_cap_families(ctx.tier.thorough()), &p, false, &no_extra);
     seeded_supplement(ctx, &col, 20, &p, false);
     col
 }
